@@ -1,12 +1,13 @@
 """C06 - non-finite evaluations are counted but never contaminate results or adaptation.
 Spec: Call.tla + MC_Call (NonFiniteIsZero: shadow accumulator with the poisoned evaluations zeroed), Trace_C06 (two-lane trace validation)."""
 import vt
+import mpicommon
 
 LEVEL = "model_checking"
 BUILDS = [(("drv_c06", ["drv_c06.cpp"]), {})]
 
 
-def run(chk, replay=None):
+def run_main(chk, replay=None):
     thorough = chk.tier == "thorough"
     chk.cov["checker_cmd"] = "tlc MC_Call (invariant NonFiniteIsZero); tlc Trace_C06 (TRACE=out/C06/trace.ndjson)"
     chk.cov["trusted_base"] = ["TLC", "mt19937 with the same seed in both lanes", "hexfloat interning: equal id <=> bit-identical values"]
@@ -42,6 +43,15 @@ def run(chk, replay=None):
         if r2.rc == 0:
             raise vt.MachineryError("binding self-test: corrupted trace accepted")
         chk.cov["binding_selftest"] = "next-state id of lane Z changed at event %d: rejected (matched %s)" % (i + 1, r2.matched)
+
+
+def run(chk, replay=None):
+    if mpicommon.is_mpi_replay(replay):
+        mpicommon.mpi_leg(chk, "C06:mpi", replay=replay)
+        return
+    run_main(chk, replay=replay)
+    if not replay and not chk.violations:
+        mpicommon.legs(chk, "C06:mpi")
 
 
 def replay(chk, path):
